@@ -457,6 +457,25 @@ def r8_abandoned(r, facts):
     r.floor(6, 'descriptor-producing operations')
 
 
+def r9_abandoned_close(r, facts):
+    """close(self) disowns the descriptor: something must still own (and eventually close) it while the Close
+    future has not completed"""
+    f = facts.fn('io::<impl fd::AsyncFd>::close')
+    md = [(loc, t) for loc, t in f.calls() if (t.get('callee') or '') == 'std::mem::ManuallyDrop::<T>::new']
+    news = [(loc, t) for loc, t in f.calls() if (t.get('callee') or '').endswith('::new') and 'Close' in (t.get('callee') or '')]
+    if not r.require(len(news) == 1, 'AsyncFd::close/Close::new', 'Close::new call not found', f.where()):
+        return
+    loc, t = news[0]
+    tys = [a.get('ty') or '' for a in t['args'][1:]]
+    owning = [ty for ty in tys if any(o in ty for o in ('fd::AsyncFd', 'OwnedFd'))]
+    # or: the operation state has a per-operation hook for abandoned operations (see R8)
+    ds = facts.fn(life.DROP_STATE)
+    hook = any((c.get('callee_trait') or '').startswith('io_uring::op::') for l2, c in ds.calls())
+    r.inst('close(): self disowned by ManuallyDrop=%s; Close::new component types %s; owning component: %s; abandoned-operation hook: %s' % (bool(md), tys, owning, hook), f.where(loc))
+    r.require(not md or owning or hook, 'AsyncFd::close/abandoned', 'close(self) gives up ownership of the descriptor (ManuallyDrop) and passes a bare (RawFd, Kind) to the Close future: if that future is dropped before it completes (never polled, or cancelled while running) nothing owns the descriptor and it is never closed', f.where(loc))
+    r.floor(1)
+
+
 def check(ctx):
     ctx.run('C07.R1', 'AsyncFd is neither Clone nor Copy and has a Drop impl', r1_unique_owner)
     ctx.run('C07.R2', 'wrap once: origins of descriptors given to AsyncFd::from_raw', r2_wrap_once)
@@ -465,6 +484,7 @@ def check(ctx):
     ctx.run('C07.R5', 'close encodings vs ABI (fd / file_index=fd+1 / files_update) and the bit-31 kind encoding', r5_encodings)
     ctx.run('C07.R6', 'AsyncFd::close(self): ManuallyDrop, sq read once, (fd, kind) passed on', r6_close_self)
     ctx.run('C07.R7', 'standard-stream handles never close their descriptor', r7_stdio)
+    ctx.run('C07.R9', 'a Close future abandoned before completion still leaves the descriptor owned by something that closes it', r9_abandoned_close)
     ctx.run('C07.R8', 'abandoned descriptor-producing operations must inspect the completion result', r8_abandoned)
 
 
